@@ -35,6 +35,7 @@ class parser {
 	} state_;
 	
 	unsigned bracket_counter_;
+	bool quoting_;
 
 	std::vector<char> *body_;
 	unsigned *body_ptr_;
@@ -97,6 +98,7 @@ public:
 	parser(std::vector<char> &body,unsigned &body_ptr) :
 		state_(idle),
 		bracket_counter_(0),
+		quoting_(true),
 		body_(&body),
 		body_ptr_(&body_ptr),
 		pbase_(0),
@@ -108,6 +110,7 @@ public:
 	parser(char const *&pbase,char const *&pptr,char const *&epptr) :
 		state_(idle),
 		bracket_counter_(0),
+		quoting_(true),
 		body_(0),
 		body_ptr_(0),
 		pbase_(&pbase),
@@ -117,10 +120,19 @@ public:
 	{
 		header_.reserve(32);
 	}
+	///
+	/// Enable or disable recognition of quoted strings and comments, they are part of
+	/// the header fields syntax but not of the request line where '(' is an ordinary URI character
+	///
+	void quoting(bool v)
+	{
+		quoting_ = v;
+	}
 	void reset()
 	{
 		state_ = idle;
 		bracket_counter_ = 0;
+		quoting_ = true;
 		header_.clear();
 		pbase_ = 0;
                 pptr_ = 0;
@@ -164,11 +176,15 @@ public:
 					state_=last_lf_exptected;
 					break;
 				case '"':
-					state_=quote_expected;
+					state_=quoting_ ? quote_expected : input_observed;
 					break;
 				case '(':
-					state_=closing_bracket_expected;
-					bracket_counter_++;
+					if(quoting_) {
+						state_=closing_bracket_expected;
+						bracket_counter_++;
+					}
+					else
+						state_=input_observed;
 					break;
 				default:
 					state_=input_observed;
@@ -203,11 +219,15 @@ public:
 					state_=lf_exptected;
 					break;
 				case '"':
-					state_=quote_expected;
+					state_=quoting_ ? quote_expected : input_observed;
 					break;
 				case '(':
-					state_=closing_bracket_expected;
-					bracket_counter_++;
+					if(quoting_) {
+						state_=closing_bracket_expected;
+						bracket_counter_++;
+					}
+					else
+						state_=input_observed;
 					break;
 				default:
 					state_=input_observed;
